@@ -17,7 +17,6 @@ package preprocess
 import (
 	"go/ast"
 	"go/types"
-	"slices"
 
 	"golang.org/x/tools/go/analysis/passes/ctrlflow"
 	"golang.org/x/tools/go/cfg"
@@ -61,7 +60,9 @@ func (p *Preprocessor) inlineTemplComponentFuncLit(graph *cfg.CFG, funcDecl *ast
 	cfgs := p.pass.ResultOf[ctrlflow.Analyzer].(*ctrlflow.CFGs)
 	// Now, we "inline" the function literal by replacing the CFG of the function with the CFG of
 	// the function literal.
-	graph.Blocks = slices.Clone(cfgs.FuncLit(funcLit).Blocks)
+	// Note that the CFG of the function literal is shared with other analyzers (just like the CFG
+	// of the function itself), so we must work on a deep copy of it since we modify its blocks.
+	graph.Blocks = copyGraph(cfgs.FuncLit(funcLit)).Blocks
 	for _, b := range graph.Blocks {
 		if !b.Live || len(b.Nodes) == 0 {
 			continue
